@@ -2,7 +2,10 @@ import GlueVerif.Lemmas.ArrayUtil
 /-!
 # C20 — chunk, slice and broadcast helpers are exact
 
-Property theorems only; helper lemmas live in `GlueVerif.Lemmas.ArrayUtil`.
+Property theorems only; helper lemmas live in `GlueVerif.Lemmas.*`.  Every statement is about the
+executable definitions in `GlueVerif.Model.ArrayUtil` that the driver `Drivers/C20.lean` runs
+against `glue/utils/array.py` on every check, and every `spec*` predicate below is the very
+predicate the driver evaluates on the *implementation's* output.
 -/
 namespace GlueVerif.C20
 open GlueVerif.ArrayUtil
@@ -15,5 +18,44 @@ theorem findChunkShape_spec (shape : List Nat) (nMax : Nat) (hn : 0 < nMax)
   Lemmas.specFcs_findChunkShape shape nMax hn hs
 
 example : (∀ s ∈ [3, 4, 5], 0 < s) ∧ 0 < 7 ∧ findChunkShape [3, 4, 5] 7 = [1, 1, 5] := by decide
+
+/-- Iterating with an explicit chunk shape: every index tuple below `shape` lies in **exactly one**
+chunk, every chunk is a non-empty box inside `shape`, and no chunk is longer than the requested
+chunk shape along any axis — for every number of dimensions, every shape and every positive chunk
+shape (the chunk shape need not even fit within the shape). -/
+theorem iterateChunks_partition (shape chunk : List Nat) (hl : chunk.length = shape.length)
+    (hc : ∀ c ∈ chunk, 0 < c) :
+    specIter shape (some chunk) none (iterateChunksProd shape chunk) = true :=
+  Lemmas.specIter_prod_chunkShape shape chunk hl hc
+
+/-- Iterating with an element limit: exact partition, and no chunk holds more than `n_max`
+elements. -/
+theorem iterateChunks_nmax (shape : List Nat) (n : Nat) (hn : 0 < n) (hs : ∀ s ∈ shape, 0 < s) :
+    specIter shape none (some n) (iterateChunksProd shape (findChunkShape shape n)) = true :=
+  Lemmas.specIter_prod_nMax shape n hn hs
+
+example : iterateChunksProd [3, 2] [2, 1] =
+    [[(0, 2), (0, 1)], [(2, 3), (0, 1)], [(0, 2), (1, 2)], [(2, 3), (1, 2)]] := by decide
+
+/-- Removing broadcast (stride-0) axes and broadcasting back reproduces the array: the result has
+the original shape and addresses the same element at every index. -/
+theorem unbroadcast_roundtrip (a : Strided) (hl : a.shape.length = a.strides.length) :
+    specUnbroadcast a (unbroadcast a) = true :=
+  Lemmas.specUnbroadcast_unbroadcast a hl
+
+example : (unbroadcast ⟨[3, 4, 2], [0, 2, 0]⟩).shape = [1, 4, 1] := by decide
+
+/-- Categorical arrays: categories are strictly sorted (hence unique), every category occurs,
+and `categories[codes[i]] = values[i]` for every `i`. -/
+theorem unique_spec (xs : List Int) : specUnique xs (categories xs) (codes xs) = true :=
+  Lemmas.specUnique_model xs
+
+example : categories [3, 1, 3, 2] = [1, 2, 3] ∧ codes [3, 1, 3, 2] = [2, 0, 2, 1] := by decide
+
+/-- The length predicted for a positive-step slice axis (`view_shape`) is the number of elements
+the slice really selects. -/
+theorem viewShape_slice_length (b e : Int) (st : Nat) (hst : 0 < st) :
+    (pyRange b e st).length = rangeLen b e st :=
+  Lemmas.pyRange_length b e st hst
 
 end GlueVerif.C20
